@@ -41,7 +41,7 @@ def sig_shape(u):
     return "(" + ",".join(shape(p) for p in u["ps"]) + ")->" + shape(u["r"])
 
 
-def run_all(tier, wd):
+def run_all(tier, wd, unit_filter=None):
     cli = cli_exe()
     vhost_dir = cargo_build("vhost")
     cfg = "abi/MC_RustExec" if tier == "quick" else None
@@ -56,6 +56,8 @@ def run_all(tier, wd):
         if len(u["cases"]) < (6 if tier == "quick" else 12):
             u["cases"].append({"args": v["args"], "res": v["res"], "enc": v["enc"], "encEcho": v["encEcho"]})
     units = list(units.values())
+    if unit_filter is not None:
+        units = [u for u in units if unit_filter(u)]
     configs = ["default"] if tier == "quick" else ["default", "borrowing", "merge-equal", "raw-strings"]
     jobs = []
     for n, u in enumerate(units):
